@@ -384,6 +384,88 @@ Section STATEMENT.
   Qed.
 End STATEMENT.
 
+(* ====================== D. every selected series once, ascending, for EVERY hint combination ====================== *)
+Lemma row_le_fp a b : row_le a b -> (r_fp a <= r_fp b)%N.
+Proof. unfold row_le. intros [H|[H _]]; lia. Qed.
+
+Lemma row_sorted_contiguous rows : StronglySorted row_le rows -> contiguousb rows = true.
+Proof.
+  induction 1 as [|r rest Hs IH Hall]; [reflexivity|]. cbn [contiguousb]. rewrite IH. cbn [andb].
+  destruct rest as [|n rest']; [reflexivity|].
+  destruct (N.eqb_spec (r_fp n) (r_fp r)) as [E|E]; [reflexivity|]. cbn [orb]. apply negb_true_iff.
+  apply not_true_is_false. intros Hex. apply existsb_exists in Hex. destruct Hex as [x [Hx He]]. apply N.eqb_eq in He.
+  rewrite Forall_forall in Hall. assert (Hn := row_le_fp _ _ (Hall n (or_introl eq_refl))).
+  assert (Hnx : (r_fp n <= r_fp x)%N).
+  { destruct Hx as [<-|Hx]; [lia|]. inversion Hs as [|? ? _ Hall']; subst. rewrite Forall_forall in Hall'. apply row_le_fp. now apply Hall'. }
+  lia.
+Qed.
+
+Lemma rows_of_sorted_asc fp rows : StronglySorted row_le rows -> StronglySorted Z.le (map fst (rows_of fp rows)).
+Proof.
+  induction 1 as [|r rest Hs IH Hall]; [constructor|]. rewrite rows_of_cons.
+  destruct (N.eqb_spec (r_fp r) fp) as [E|E]; [|exact IH]. cbn [map]. constructor; [exact IH|].
+  apply Forall_forall. intros t Ht. apply in_map_iff in Ht. destruct Ht as [x [<- Hx]].
+  unfold rows_of in Hx. apply in_map_iff in Hx. destruct Hx as [r' [<- Hr']]. apply filter_In in Hr'. destruct Hr' as [Hr' Hfp].
+  apply N.eqb_eq in Hfp. rewrite Forall_forall in Hall. destruct (Hall r' Hr') as [Hlt|[_ Hle]]; [lia|]. exact Hle.
+Qed.
+
+Lemma filter_row_sorted (f : row -> bool) rows : StronglySorted row_le rows -> StronglySorted row_le (filter f rows).
+Proof.
+  induction 1 as [|r rest Hs IH Hall]; [constructor|]. cbn [filter]. destruct (f r); [|exact IH].
+  constructor; [exact IH|]. apply Forall_forall. intros x Hx. apply filter_In in Hx. rewrite Forall_forall in Hall. now apply Hall.
+Qed.
+
+Lemma hinted_rows_sorted h rows : (is_instant (h_func h) = true -> 0 <= h_step h) ->
+  StronglySorted row_le rows -> StronglySorted row_le (hinted_rows h rows).
+Proof.
+  intros Hst Hs. unfold hinted_rows. destruct (Z.eqb_spec (h_step h) 0) as [E|E]; [assumption|].
+  destruct (is_instant (h_func h)) eqn:Ei.
+  - apply bucket_rows_sorted; [|assumption]. specialize (Hst eq_refl). lia.
+  - destruct (is_range (h_func h) && (h_range h <? h_step h)); [now apply filter_row_sorted|assumption].
+Qed.
+Lemma hinted_rows_fps h rows fp : List.In fp (map r_fp (hinted_rows h rows)) -> List.In fp (map r_fp rows).
+Proof.
+  unfold hinted_rows. destruct (h_step h =? 0); [tauto|]. destruct (is_instant (h_func h)); [apply bucket_rows_fps|].
+  destruct (is_range (h_func h) && (h_range h <? h_step h)); [|tauto].
+  intros H. apply in_map_iff in H. destruct H as [r [<- Hr]]. apply filter_In in Hr. apply in_map. tauto.
+Qed.
+
+Section ONCE.
+  Variable re_match re_full : string -> string -> bool.
+  Hypothesis anchor_law : forall v p, re_match v (anchor p) = re_full v p.
+
+  (* EACH SELECTED SERIES IS HANDED TO THE ENGINE ONCE, WITH ASCENDING TIMESTAMPS, whatever the hints of the raw path
+     (prom_select_exact is the case Step = 0, where the samples are exactly the in-range ones): the row loop over the rows
+     of the statement yields one series per fingerprint, only fingerprints of series satisfying the matchers, each with
+     the rows of that fingerprint in order -- the hypothesis of seek_contract *)
+  Theorem prom_select_once_all_hints cluster dbname h ms db :
+    use_raw_data h = true -> (is_instant (h_func h) = true -> 0 <= h_step h) ->
+    db_ok (from_day (h_start h * 1000000)) (d_gin db) (d_series db) ->
+    selective re_full ms = true -> (List.length ms <= 63)%nat ->
+    exists rows, prom_query_rows re_match re_full cluster dbname h ms db = Some rows /\
+      rows = hinted_rows h (expected_rows re_full h ms db) /\
+      let ss := select_loop (snd (querier_transpile re_full cluster dbname h ms)) rows in
+      NoDup (map ps_fp ss) /\
+      (forall fp, List.In fp (map ps_fp ss) -> List.In fp (expected_fps re_full (from_day (h_start h * 1000000)) ms (d_series db))) /\
+      (forall s, List.In s ss ->
+         ps_samples s = rows_of (ps_fp s) rows /\ StronglySorted Z.le (map fst (ps_samples s))).
+  Proof.
+    intros Hraw Hst Hdb Hne Hlen.
+    exists (hinted_rows h (expected_rows re_full h ms db)).
+    split; [now apply (prom_rows_all_hints re_match re_full anchor_law)|]. split; [reflexivity|].
+    unfold querier_transpile. rewrite Hraw. cbn [snd].
+    assert (Hsorted : StronglySorted row_le (hinted_rows h (expected_rows re_full h ms db))).
+    { apply hinted_rows_sorted; [assumption|]. rewrite expected_rows_raw. apply raw_rows_sorted. }
+    destruct (select_loop_spec false _ (row_sorted_contiguous _ Hsorted)) as [Hnd [Hfps Hsmp]].
+    cbv zeta. split; [assumption|]. split.
+    - intros fp Hfp. apply Hfps in Hfp. apply hinted_rows_fps in Hfp. rewrite expected_rows_raw in Hfp.
+      apply raw_rows_fps in Hfp. destruct Hfp as [s [_ [Hok Hs]]]. unfold sample_ok in Hok.
+      apply andb_prop in Hok. destruct Hok as [_ Hex]. apply existsb_exists in Hex. destruct Hex as [y [Hy He]].
+      apply N.eqb_eq in He. congruence.
+    - intros s Hs. rewrite (Hsmp s Hs). split; [reflexivity|]. now apply rows_of_sorted_asc.
+  Qed.
+End ONCE.
+
 (* the guard is satisfiable by non-trivial hints of each kind, on the raw path *)
 Example hints_guard_nonvacuous :
   let hi := {| h_start := 1700000000000; h_end := 1700003600000; h_step := 60000; h_func := ""; h_range := 0 |} in
